@@ -171,7 +171,20 @@ pub fn generate_live(prop: &str, seed: u64, tier: &str, out: &mut dyn std::io::W
             let nblock = *r.pick(&[22usize, 24, 30]);
             // (a pattern region: every blocked thread keeps a pointer into it in the word just below its stack
             // pointer, and nowhere else)
-            let t = match Target::spawn(&["-t".to_string(), nblock.to_string(), "-o".to_string(), adj.to_string(), "-r".to_string(), "8192:r".to_string()]) {
+            let mut targs = vec!["-t".to_string(), nblock.to_string(), "-o".to_string(), adj.to_string(), "-r".to_string(), "8192:r".to_string()];
+            // some threads (early and late in the list) wait with the stack pointer in the inaccessible guard pages in
+            // front of their stack: the region must begin at the stack mapping above, shortened or not
+            {
+                let mut r2 = Rng::for_case(seed, 607, idx);
+                if prop == "C06" && r2.chance(2, 3) {
+                    for _ in 0..r2.range(1, 4) {
+                        let kth = *r2.pick(&[1u64, 5, 19, 20, 21, nblock as u64 - 1, nblock as u64]);
+                        targs.push("-w".to_string());
+                        targs.push(format!("{}:-{}", kth, *r2.pick(&[8u64, 2040, 2048, 2056, 4096, 6000, 0x5010, 69000])));
+                    }
+                }
+            }
+            let t = match Target::spawn(&targs) {
                 Ok(t) => t,
                 Err(_) => continue,
             };
@@ -204,7 +217,7 @@ pub fn generate_live(prop: &str, seed: u64, tier: &str, out: &mut dyn std::io::W
                 }
             }
             let mut dest = RecDest::new(vec![], 0);
-            let o = dump_case(prop, &format!("l{}-{}", seed, idx), &t, &cfg, &mut dest, &format!("spoff={}", x));
+            let o = dump_case(prop, &format!("l{}-{}", seed, idx), &t, &cfg, &mut dest, &format!("spoff={} args={}", x, targs.join(",")));
             writeln!(out, "{}", o.line).unwrap();
             idx += 1;
         }
